@@ -1091,7 +1091,7 @@ func (e *Engine) runNextDefer(st *State) bool {
 	}
 	callee, mc := e.StaticCallee(fc, &d.call.Call)
 	if callee != nil && e.P.InScope(callee) && len(callee.Blocks) > 0 && e.rule.Inline(callee) && !fc.onStack(callee) {
-		nfc := &FrameCtx{id: fc.id + ">defer@" + fmt.Sprint(d.n), fn: callee, parent: fc, args: d.call.Call.Args, closure: mc, depth: fc.depth + 1, site: d.call}
+		nfc := &FrameCtx{id: fc.id + ">defer@" + fmt.Sprint(d.n) + ":" + callee.Name(), fn: callee, parent: fc, args: d.call.Call.Args, closure: mc, depth: fc.depth + 1, site: d.call}
 		st.stack = append(st.stack, ctl{fc: nfc, blk: callee.Blocks[0], deferred: true})
 		e.Inlined[callee] = true
 		e.rule.OnEnter(e, st, nfc)
